@@ -66,7 +66,7 @@ Proof.
   intros buf pos Hp. unfold instr_next.
   destruct (index_partial_ok _ buf pos Hp) as [byte ->]. cbn [rbind].
   assert (Hp1 : pos + 1 <= nlen buf) by lia.
-  destruct ((1 <=? byte) && (byte <=? 75)) eqn:Epush.
+  destruct (byte <=? 75) eqn:Epush.
   - destruct (byte =? 1) eqn:E1.
     + destruct (nlen buf - (pos + 1) <? 1) eqn:E2; cbn [rbind].
       * apply take_push_spec; exact Hp1.
@@ -133,14 +133,19 @@ Proof.
     destruct (c =? 105).
     { destruct (verify_case prev) as [[ts H]|H]; rewrite H; [left; eauto|right; eexists; split; [reflexivity|discriminate]]. }
     destruct ((c =? 136) || (c =? 157) || (c =? 173) || (c =? 175)); [left; eauto|].
-    destruct (c =? 0); [left; eauto|]. destruct ((81 <=? c) && (c <=? 96)); left; eauto.
+    destruct ((81 <=? c) && (c <=? 96)); left; eauto.
 Qed.
 
-Lemma lex_fold_spec : forall is acc,
-  (exists ts, lex_fold acc is = ROk ts) \/ (exists e, lex_fold acc is = RErr e /\ e <> E_OUT_OF_FUEL).
+Lemma lex_loop_total : forall fuel buf pos acc, pos <= nlen buf -> (N.to_nat (nlen buf - pos) <= fuel)%nat ->
+  (exists ts, lex_loop fuel buf pos acc = ROk ts) \/ (exists e, lex_loop fuel buf pos acc = RErr e /\ e <> E_OUT_OF_FUEL).
 Proof.
-  induction is as [|i r IH]; intros acc; cbn [lex_fold]; [left; eauto|].
-  destruct (lex_one_spec (last (map Some acc) None) i) as [[ts ->]|(e & -> & He)]; cbn [rbind]; [apply IH|right; eauto].
+  induction fuel as [|f IH]; intros buf pos acc Hp Hf.
+  - assert (pos = nlen buf) by lia. subst pos. left. exists acc. cbn [lex_loop]. now rewrite N.leb_refl.
+  - cbn [lex_loop]. destruct (nlen buf <=? pos) eqn:E; [left; eauto|]. apply N.leb_gt in E.
+    destruct (instr_next_spec buf pos E) as [(e & He & Hne)|(i & p & He & H1 & H2)]; rewrite He; cbn [rbind].
+    + right; eauto.
+    + destruct (lex_one_spec (last (map Some acc) None) i) as [[ts ->]|(e & -> & Hne)]; cbn [rbind]; [|right; eauto].
+      apply IH; lia.
 Qed.
 
 (* lex_total: for EVERY byte string the lexer model returns tokens or an error VALUE: no
@@ -148,12 +153,7 @@ Qed.
 Theorem lex_total_proof : forall script : bytes,
   (exists ts, lex_model script = ROk ts) \/ (exists e, lex_model script = RErr e /\ e <> E_OUT_OF_FUEL).
 Proof.
-  intros script. unfold lex_model.
-  destruct (instr_all_total (length script) script 0) as [[is Hi]|(e & Hi & Hne)].
-  - lia.
-  - unfold nlen. lia.
-  - rewrite Hi. cbn [rbind]. apply lex_fold_spec.
-  - rewrite Hi. cbn [rbind]. right; eauto.
+  intros script. unfold lex_model. apply lex_loop_total; [lia|unfold nlen; lia].
 Qed.
 
 Corollary lex_never_panics : forall script s, lex_model script <> RPanic s.
